@@ -6,7 +6,6 @@ import (
 	"errors"
 	"io"
 	"net/http"
-	"net/url"
 	"strconv"
 	"time"
 
@@ -44,7 +43,8 @@ func (b *verifBody) Read(p []byte) (int, error) { return 0, io.EOF }
 func (b *verifBody) Close() error               { b.call.bodyClosed = true; return nil }
 
 type verifTransport struct {
-	calls []*verifHTTPCall
+	calls   []*verifHTTPCall
+	always200 bool
 }
 
 func (t *verifTransport) RoundTrip(req *http.Request) (*http.Response, error) {
@@ -63,6 +63,10 @@ func (t *verifTransport) RoundTrip(req *http.Request) (*http.Response, error) {
 	}
 	t.calls = append(t.calls, c)
 	k := len(t.calls)
+	if t.always200 {
+		c.status = 200
+		return &http.Response{StatusCode: 200, Header: http.Header{}, Body: &verifBody{call: c}, Request: req}, nil
+	}
 	if verifrt.Choice("transportFails", 2) == 1 {
 		c.failed = true
 		return nil, errors.New("verif: connection refused #" + strconv.Itoa(k))
@@ -273,8 +277,8 @@ func (r *verifRelay) handle(body []byte, post bool) {
 			verifrt.Assert(c.method == "GET", "get-method")
 			verifrt.Assert(len(c.rawQuery) >= 2 && c.rawQuery[:2] == "m=", "get-query-carries-the-parameter")
 			if len(c.rawQuery) >= 2 {
-				got, uerr := url.QueryUnescape(c.rawQuery[2:])
-				verifrt.Assert(uerr == nil && verifSameBytes([]byte(got), orig), "get-query-decodes-to-the-message-unmodified")
+				got, ok := verifQueryDecode(c.rawQuery[2:])
+				verifrt.Assert(ok && verifSameBytes(got, orig), "get-query-decodes-to-the-message-unmodified")
 			}
 		}
 		if !c.failed {
@@ -311,20 +315,76 @@ func verifNsqToHttpPost() {
 	verifrt.Reach("transport-error", len(calls) >= 1 && calls[0].failed)
 }
 
-// GET relay: the message travels percent-encoded in the query of the printf-style address. Any
-// body bytes (so every escaping class), 1..2 destinations, every mode, every outcome.
+// verifQueryDecode: what an HTTP server makes of a query value (application/x-www-form-urlencoded:
+// %XX is the byte XX, '+' is a space, '&' '=' '#' would end the value, the rest stands for itself).
+func verifQueryDecode(q string) ([]byte, bool) {
+	var out []byte
+	hex := func(c byte) (byte, bool) {
+		switch {
+		case c >= '0' && c <= '9':
+			return c - '0', true
+		case c >= 'a' && c <= 'f':
+			return c - 'a' + 10, true
+		case c >= 'A' && c <= 'F':
+			return c - 'A' + 10, true
+		}
+		return 0, false
+	}
+	for i := 0; i < len(q); i++ {
+		c := q[i]
+		switch {
+		case c == '%':
+			if i+2 >= len(q) {
+				return nil, false
+			}
+			h, ok1 := hex(q[i+1])
+			l, ok2 := hex(q[i+2])
+			if !ok1 || !ok2 {
+				return nil, false
+			}
+			out = append(out, h<<4|l)
+			i += 2
+		case c == '+':
+			out = append(out, ' ')
+		case c == '&' || c == '=' || c == '#' || c == ' ' || c < 0x20 || c >= 0x7f:
+			return nil, false
+		default:
+			out = append(out, c)
+		}
+	}
+	return out, true
+}
+
+// GET relay, outcome logic: a fixed body containing every escaping class, 1..2 destinations,
+// every mode, every outcome (transport error or any integer status).
 func VerifC20_NsqToHttpGet() { verifrt.Atomic(verifNsqToHttpGet) }
 
 func verifNsqToHttpGet() {
 	mode := verifModeOf(verifrt.Choice("mode", 3))
 	nAddr := 1 + verifrt.Choice("naddr", 2)
 	r := verifNewRelay(false, mode, nAddr)
-	body := verifrt.Bytes("body", verifrt.Bound("getBody", 2, 3))
-	r.handle(body, false)
+	r.handle([]byte{'m', '&', ' ', '%', '+', '=', '/', '?', '#', 0, 0xff, '~', '\n'}, false)
+	if verifrt.Tier() == 1 {
+		r.handle([]byte{}, false)
+	}
 	calls := r.tr.calls
 	verifrt.Reach("get-200-finished", len(calls) == 1 && !calls[0].failed && calls[0].status == 200)
 	verifrt.Reach("get-204-outcome-open", len(calls) >= 1 && !calls[0].failed && calls[0].status == 204)
 	verifrt.Reach("get-500-requeued", len(calls) >= 1 && !calls[0].failed && calls[0].status == 500)
-	verifrt.Reach("get-escaped-byte", len(body) == 2 && body[0] == '&' && body[1] == ' ')
 	verifrt.Reach("get-mode-all-both", mode == ModeAll && len(calls) == 2)
+}
+
+// GET relay, encoding: ANY body bytes (followed by a fixed tail of special characters) arrive
+// unmodified after the server decodes the query. One destination answering 200.
+func VerifC20_NsqToHttpGetEscaping() { verifrt.Atomic(verifNsqToHttpGetEscaping) }
+
+func verifNsqToHttpGetEscaping() {
+	r := verifNewRelay(false, ModeRoundRobin, 1)
+	r.tr.always200 = true
+	body := verifrt.Bytes("body", verifrt.Bound("getBody", 1, 2))
+	full := append(append([]byte{}, body...), '&', ' ', '%', 'z')
+	r.handle(full, false)
+	verifrt.Reach("escaped-byte", len(body) >= 1 && body[0] == '&')
+	verifrt.Reach("plain-byte", len(body) >= 1 && body[0] == 'q')
+	verifrt.Reach("high-byte", len(body) >= 1 && body[0] >= 0x80)
 }
